@@ -22,6 +22,9 @@ def explore(res, scale=1, seed=None):
     # generated type strings (zones, precisions, decimal class boundaries, awkward enum names, nestings to depth 4);
     # first and second block of generated inferable schemas through Results.Auto(); model = GlueAuto (AutoClass.v + GlueRes)
     colfam.run_family(res, "c01auto", BUDGET[res.tier] * scale // 2, seed, builds=("default",), glue="Auto", gluemod="GlueAuto")
+    # the vectored path (Block.WriteBlock + Flush, what the client uses for uncompressed INSERTs) must give the bytes of
+    # EncodeBlock also for string-backed columns with values of 4 KiB .. 1 MiB followed by rows of other lengths (C14's family)
+    colfam.run_direct(res, "c14long", 48 * scale, seed, builds=("default",))
     # LowCardinality over floats (NaN never equals itself as a map key, +0 = -0): several encodes of one column object,
     # read back with the library's decoder (direct oracle; the column model has no floats)
     colfam.run_direct(res, "c01lcf", 150 * scale, seed, builds=("default",))
